@@ -154,12 +154,12 @@ Proof.
   intros o. induction ms as [|m r IH]; intros es es' Hp H.
   - cbn in H. inversion H; subst. exact Hp.
   - cbn [write_all] in H.
-    destruct (mkdir_p (em_dirs m) es) as [es1|] eqn:H1; [|discriminate H].
-    destruct (write_at (em_dirs m) (out_file o m) (entity_content m) es1) as [es2|] eqn:H2; [|discriminate H].
+    destruct (mkdir_p (out_dirs m) es) as [es1|] eqn:H1; [|discriminate H].
+    destruct (write_at (out_dirs m) (out_file o m) (entity_content m) es1) as [es2|] eqn:H2; [|discriminate H].
     apply (IH es2 es'); [|exact H].
-    apply (populated_step (em_dirs m) (out_file o m) es es1 es2 Hp H1).
+    apply (populated_step (out_dirs m) (out_file o m) es es1 es2 Hp H1).
     + intros p. apply (is_dir_at_write_at _ _ _ _ _ H2).
-    + intros q Hq. rewrite (file_at_write_at _ _ _ _ _ H2). destruct (path_eqb q (em_dirs m ++ [out_file o m])); [discriminate|exact Hq].
+    + intros q Hq. rewrite (file_at_write_at _ _ _ _ _ H2). destruct (path_eqb q (out_dirs m ++ [out_file o m])); [discriminate|exact Hq].
     + rewrite (file_at_write_at _ _ _ _ _ H2), path_eqb_refl. discriminate.
 Qed.
 
@@ -203,7 +203,7 @@ Theorem dirs_minimal : forall o ms t r,
   forall p, p <> [] -> is_dir_at p r = true -> exists q c, file_at (p ++ q) r = Some c.
 Proof.
   intros o ms t r H.
-  destruct (export_unfold _ _ _ _ H) as [w [Hw Hr]].
+  destruct (export_unfold _ _ _ _ H) as [_ [w [Hw Hr]]].
   pose proof (write_all_populated o ms _ w (clean_dir_populated (orm_ext o) t) Hw) as Hpw.
   destruct o; [exact (chain_all_populated ms w r Hpw Hr)|subst r; exact Hpw|subst r; exact Hpw].
 Qed.
